@@ -1676,9 +1676,17 @@ impl<'a> Gen<'a> {
         let edge = self.rng.range(9, 11); // delivery this many blocks after the first parking
         let d1 = self.rng.range(1, 8);    // second parking this many blocks after the first
         let start = self.next_height();
-        self.block_with(&[(s, k + 1)], true);
-        if d1 > 1 { self.mine(d1 - 1); }
-        self.block_with(&[(s, k + 2)], false);
+        if self.rng.chance(1, 2) {
+            // an expired entry BETWEEN live ones: k+2 first, k+1 and k+3 later, k around the expiry edge
+            // of k+2 (the drain must stop at k+2 although k+1 ran and k+3 is still fresh)
+            self.block_with(&[(s, k + 2)], true);
+            if d1 > 1 { self.mine(d1 - 1); }
+            self.block_with(&[(s, k + 1), (s, k + 3)], false);
+        } else {
+            self.block_with(&[(s, k + 1)], true);
+            if d1 > 1 { self.mine(d1 - 1); }
+            self.block_with(&[(s, k + 2)], false);
+        }
         let now = self.next_height();
         let target = start + edge;
         if target > now { self.mine(target - now); }
